@@ -264,6 +264,17 @@ def note_pairs(worst, G, M, ctxs, same_impl, same_spec, where):
                                        "context_1": c1, "context_2": c2, "where": where, "G": G, "M": M})
 
 
+def rev_keys(c):
+    if isinstance(c, dict):
+        return {k: rev_keys(c[k]) for k in reversed(list(c))}
+    return c
+
+
+def shape_problem(worst, kind, G, M, extra):
+    worst.add(kind, (len(G) + len(M), jkey([G, M])), dict(extra, G=G, M=M, group_by=[sl.dotted(p) for p in G],
+                                                        merge=[sl.dotted(p) for p in M]))
+
+
 def replay_classes(ctx, recs, rnd, worst):
     ctxs = None
     for rec in recs:
@@ -279,9 +290,13 @@ def replay_classes(ctx, recs, rnd, worst):
         order = list(range(n)) + rnd.sample(range(n), n // 4)      # some contexts twice
         rnd.shuffle(order)
         values = []
+        seen = set()
         for pos, ci in enumerate(order):
             c = ctxs[ci]
-            values.append(pos if (not c and pos % 2) else (pos, json.loads(json.dumps(c))))
+            # a second occurrence of a context has its keys inserted in the opposite order
+            c = rev_keys(c) if ci in seen else json.loads(json.dumps(c))
+            seen.add(ci)
+            values.append(pos if (not c and pos % 2) else (pos, c))
         expected = {}
         for pos, ci in enumerate(order):
             expected.setdefault(cls[ci], []).append(pos)
@@ -291,15 +306,14 @@ def replay_classes(ctx, recs, rnd, worst):
                 gb = make_groupby(G, M, style)
                 groups, computed = fill_all(gb, values)
             except Exception as exc:   # noqa
-                ctx.violation("GroupBy:raised %s:%s" % (type(exc).__name__, gm_text(G, M)),
-                              {"group_by": G, "merge": M, "exception": repr(exc)})
+                shape_problem(worst, "raised %s" % type(exc).__name__, G, M, {"exception": repr(exc)})
                 continue
             # group members are the filled values themselves
             pos_of = {id(v): p for p, v in enumerate(values)}
             try:
                 got = [[pos_of[id(v)] if id(v) in pos_of else values.index(v) for v in g] for g in groups]
             except ValueError:
-                ctx.violation("GroupBy:foreign value in a group:%s" % gm_text(G, M), {"group_by": G, "merge": M})
+                shape_problem(worst, "foreign value in a group", G, M, {})
                 continue
             if sorted(got) != exp:
                 where_of = {}
@@ -307,17 +321,16 @@ def replay_classes(ctx, recs, rnd, worst):
                     for p in g:
                         where_of.setdefault(order[p], set()).add(gi)
                 if any(sorted(g) != g for g in got):
-                    ctx.violation("GroupBy:arrival order not preserved:%s" % gm_text(G, M),
-                                  {"group_by": G, "merge": M, "groups": got})
+                    shape_problem(worst, "arrival order not preserved", G, M, {"a_group": next(g for g in got if sorted(g) != g)})
                 if sorted(p for g in got for p in g) != list(range(len(values))):
-                    ctx.violation("GroupBy:not a partition:%s" % gm_text(G, M), {"group_by": G, "merge": M, "groups": got})
+                    shape_problem(worst, "not a partition of the filled values", G, M, {})
                 present = sorted(where_of)
                 sub = [ctxs[i] for i in present]
                 note_pairs(worst, G, M, sub,
                            lambda i, j: where_of[present[i]] == where_of[present[j]],
                            lambda i, j: cls[present[i]] == cls[present[j]], "all contexts of the universe, one flow")
             if sorted([id(v) for v in g] for g in computed) != sorted([id(v) for v in g] for g in groups):
-                ctx.violation("GroupBy.compute differs from groups:%s" % gm_text(G, M), {"group_by": G, "merge": M})
+                shape_problem(worst, "compute() differs from groups", G, M, {})
         ctx.case(["groupby-classes", G, M], nontrivial=True)
 
 
@@ -331,14 +344,14 @@ def replay_flows(ctx, recs, worst):
             gb = make_groupby(G, M, rnum % 2)
             groups, _ = fill_all(gb, values)
         except Exception as exc:   # noqa
-            ctx.violation("GroupBy:raised %s:%s" % (type(exc).__name__, gm_text(G, M)), {"group_by": G, "merge": M})
+            shape_problem(worst, "raised %s" % type(exc).__name__, G, M, {"exception": repr(exc)})
             continue
         got = [[v[0] for v in g] for g in groups]
         if sorted(got) != exp:
             gi = {p: k for k, g in enumerate(got) for p in g}
             ei = {p: k for k, g in enumerate(exp) for p in g}
             if any(sorted(g) != g for g in got):
-                ctx.violation("GroupBy:arrival order not preserved:%s" % gm_text(G, M), {"group_by": G, "merge": M, "groups": got})
+                shape_problem(worst, "arrival order not preserved", G, M, {"a_group": next(g for g in got if sorted(g) != g)})
             note_pairs(worst, G, M, cs, lambda i, j: gi.get(i) == gi.get(j), lambda i, j: ei[i] == ei[j],
                        "behaviour of the fill machine")
         ctx.case(["groupby-flow", G, M, rec["flow"]], nontrivial=len(cs) > 1)
@@ -349,8 +362,10 @@ def report_groupby(ctx, worst):
     for kind, (size, d) in sorted(worst.best.items()):
         if "context_1" in d:
             shrunk = "%s|%s" % (jkey(d["context_1"]).replace('"', ""), jkey(d["context_2"]).replace('"', ""))
-        else:
+        elif "contexts" in d:
             shrunk = "recorded run"
+        else:
+            shrunk = "any flow"
         key = "GroupBy:%s:%s:%s" % (kind, gm_text(d["G"], d["M"]), shrunk)
         d = {k: v for k, v in d.items() if k not in ("G", "M")}
         what = {"split": "values whose contexts agree on every selected key path are put into different groups",
@@ -371,7 +386,7 @@ def gb_ctx(rnd, depth=3):
     return d
 
 
-def record_groupby(ctx, rnd, n):
+def record_groupby(ctx, rnd, n, worst):
     import lena.flow as lf
     import lena.core as lc
     trace = []
@@ -411,7 +426,7 @@ def record_groupby(ctx, rnd, n):
             for v in values:
                 gb.fill(v)
         except Exception as exc:   # noqa
-            ctx.violation("GroupBy:raised %s:%s" % (type(exc).__name__, gm_text(G, M)), {"group_by": G, "merge": M})
+            shape_problem(worst, "raised %s" % type(exc).__name__, G, M, {"exception": repr(exc), "where": "random key sets"})
             continue
         trace.append({"G": G, "M": M, "ctxs": [sl.enc_ctx(c) for c in cs],
                       "groups": [[v[0] for v in grp] for grp in gb.groups.values()]})
@@ -502,7 +517,7 @@ def run(ctx):
              for j, r in enumerate(recs[len(recs) // 2:len(recs) // 2 + 8])]
     ctx.binding_demo("Trace_Selectors", "Trace_Selectors.cfg", sdemo,
                      lambda r: dict(r, res={"T": "F", "F": "T", "E": "F"}[r["res"]]))
-    gtrace = record_groupby(ctx, rnd, 6000 if ctx.thorough else 1200)
+    gtrace = record_groupby(ctx, rnd, 6000 if ctx.thorough else 1200, gworst)
     check_gb_trace(ctx, gtrace, gworst)
     report_groupby(ctx, gworst)
 
